@@ -1,6 +1,7 @@
 package c03
 
 import (
+	"bytes"
 	"fmt"
 	"os"
 	"strings"
@@ -247,6 +248,15 @@ func TestC03BodyLimit(t *testing.T) {
 		host := wire.KV{K: "Host", V: "example.com"}
 		body := gen.Body(n, 0, 7, rapid.IntRange(0, 8).Draw(t, "flavor"))
 		lines := []wire.KV{host}
+		// a well-formed multipart/form-data body of exactly n bytes (the server pre-parses those)
+		multipart := false
+		const mpHead, mpTail = "--b\r\nContent-Disposition: form-data; name=\"a\"\r\n\r\n", "\r\n--b--\r\n"
+		if !chunked && n >= len(mpHead)+len(mpTail) && rapid.IntRange(0, 2).Draw(t, "multipart") == 0 {
+			multipart = true
+			fill := bytes.Repeat([]byte("m"), n-len(mpHead)-len(mpTail))
+			body = append(append([]byte(mpHead), fill...), mpTail...)
+			lines = append(lines, wire.KV{K: "Content-Type", V: "multipart/form-data; boundary=b"})
+		}
 		r := &wire.Req{Method: "POST", Target: "/upload", Proto: "HTTP/1.1", Body: body, BodyLen: n}
 		if chunked {
 			lines = append(lines, wire.KV{K: "Transfer-Encoding", V: "chunked"})
@@ -270,9 +280,9 @@ func TestC03BodyLimit(t *testing.T) {
 		cuts := gen.Cuts(t, len(b), []int{m.HeaderEnd, m.End})
 		obs, res, _ := server(false, limit).Run(sconn.Split(b, cuts), sconn.EOF)
 		over := n > limit
-		rec.Case(true, ev.Hash(b, []byte(fmt.Sprint(limit, cuts))), fmt.Sprintf("limit-%d", limit), map[bool]string{true: "over-limit", false: "within-limit"}[over], map[bool]string{true: "chunked", false: "content-length"}[chunked])
+		rec.Case(true, ev.Hash(b, []byte(fmt.Sprint(limit, cuts))), fmt.Sprintf("limit-%d", limit), map[bool]string{true: "over-limit", false: "within-limit"}[over], map[bool]string{true: "chunked", false: "content-length"}[chunked], map[bool]string{true: "multipart-body", false: "opaque-body"}[multipart])
 		fail := func(f string, a ...interface{}) {
-			t.Fatalf("limit=%d body=%d chunked=%v chunks=%v expect=%v cuts=%v: %s\noutput: %s", limit, n, chunked, r.ChunkSizes, r.Expect100, trim(cuts), fmt.Sprintf(f, a...), srv.Short(res.Output))
+			t.Fatalf("limit=%d body=%d chunked=%v chunks=%v expect=%v multipart=%v cuts=%v: %s\noutput: %s", limit, n, chunked, r.ChunkSizes, r.Expect100, multipart, trim(cuts), fmt.Sprintf(f, a...), srv.Short(res.Output))
 		}
 		if res.Panic != nil {
 			fail("panic: %v", res.Panic)
@@ -298,7 +308,8 @@ func TestC03BodyLimit(t *testing.T) {
 				fail("connection not closed after 413")
 			}
 		} else {
-			if len(obs) != 2 || string(obs[0].Body) != string(body) || obs[1].URI != "/after" {
+			// (a pre-parsed multipart body is handed to the handler re-marshalled: compare framing only)
+			if len(obs) != 2 || (!multipart && string(obs[0].Body) != string(body)) || obs[1].URI != "/after" {
 				fail("body within the limit must be served intact and the next request too; %d invocations\n%s", len(obs), srv.Describe(obs))
 			}
 			if len(finals) != 2 || finals[0].Status != 200 || finals[1].Status != 200 {
